@@ -117,6 +117,7 @@ class Outcome:
         self.violations = []   # (role, replay_path, what)
         self.known = []        # (key, what)
         self.inconclusive = [] # text
+        self.unestablished = []  # advisory obligations of over-approximating analyses that were neither proved nor refuted natively
         self.samples = []
 
 
@@ -191,6 +192,7 @@ def write_evidence(prop, tier, seed, t0, outc, meta, n_oblig, n_proved, solver_s
         "outside_bounds": meta.get("outside_bounds", []),
         "stubs_and_assumes": meta.get("stubs_and_assumes", []),
         "inconclusive": outc.inconclusive,
+        "unestablished": outc.unestablished,
         "known_findings_hit": [{"key": k, "what": w, "replay": p} for (k, w, p) in outc.known],
         "violations": [{"role": r, "replay": p, "where": w} for (r, p, w) in outc.violations],
         "toolchain": meta.get("toolchain", {}),
@@ -267,6 +269,8 @@ def run_property(prop, tier, plan):
         outc.samples.append(s)
         if r["verdict"] == "proved":
             n_proved += 1
+        elif r["verdict"] == "unestablished":
+            outc.unestablished.append("%s: %s" % (r["obligation"], r.get("reason")))
         elif r["verdict"] == "violated":
             role = r.get("role", r["obligation"])
             e = known_for(prop, role)
